@@ -229,7 +229,7 @@ func init() {
 			}
 			sps, tags := c15Programs(tier)
 			for i, sp := range sps {
-				items = append(items, specItems("C15", sp, bound, allStrats, tags[i], c15Oracle)...)
+				items = append(items, specItemsMixed("C15", sp, bound, 1, allStrats, tags[i], c15Oracle)...)
 			}
 			return items
 		},
